@@ -12,6 +12,7 @@ import (
 	"github.com/ethereum/go-ethereum/common"
 	"github.com/ethereum/go-ethereum/core"
 	"github.com/vipnode/vipnode-contract/go/vipnodepool"
+	"github.com/vipnode/vipnode/v2/pool/balance"
 	"github.com/vipnode/vipnode/v2/pool/payment"
 	"github.com/vipnode/vipnode/v2/pool/store"
 	"github.com/vipnode/vipnode/v2/request"
@@ -101,6 +102,28 @@ func c07Contract(ctx *Ctx, i int, drv int, rng *rand.Rand) {
 	}
 	wAddr := common.HexToAddress(wallet)
 	var mon []string
+	// the pool is configured with a minimum balance, and a light client of the wallet registers
+	// and checks in before the wallet withdraws: the minimum is looked at (it refuses nobody here),
+	// the balances are only read
+	if rng.Intn(2) == 0 && !d.Timelocked {
+		mgr := balance.PayPerInterval(cp, time.Hour, big.NewInt(1))
+		mgr.MinBalance = big.NewInt(-1000000000)
+		cid := store.NodeID(nodeIDOf("c1"))
+		node := store.Node{ID: cid, Kind: "geth", LastSeen: time.Now()}
+		st.SetNode(node)
+		if err := st.AddAccountNode(acct, cid); err != nil {
+			fatal("%v", err)
+		}
+		for k := 0; k < 2+rng.Intn(3); k++ {
+			if err := mgr.OnClient(node); err != nil {
+				fatal("OnClient: %v", err)
+			}
+			if _, err := mgr.OnUpdate(node, nil); err != nil {
+				fatal("OnUpdate: %v", err)
+			}
+		}
+		d.Results = append(d.Results, "a light client of the wallet registered and checked in under a configured minimum balance first")
+	}
 	d.Repeat = rng.Intn(2) == 0
 	rounds := 1
 	if d.Repeat {
